@@ -82,3 +82,72 @@ Proof.
   exists 0%nat, 2%nat. eexists. eexists. repeat split; try (vm_compute; reflexivity). discriminate.
 Qed.
 Print Assumptions C04_sufficient_refuted.
+
+(** ** instantiations of one generic definition stay together (and C03 completeness):
+    [types_equal] answers "equal" on two coincidence-free instantiations of one definition of a
+    program-derived registry ([RegistryOf], Model/Program.v), so the generation loop does not
+    fail with DuplicateTypePath on them and [ensure_unique] ([add_to_groups]) puts the later one
+    into the group of the earlier one.
+
+    PROVED for the fragment [teq_program_okb] (Model/ProgramTeq.v): every field records its type
+    name, is not [#[codec(compact)]], its type contains no Box / VecDeque, mentions only declared
+    non-skipped parameters, and mentions them only directly or under Vec / array / tuple /
+    Compact; everything else in a field type (applications of other definitions, Option / Result /
+    BTreeMap / ..., bit sequences) is closed.  Proof (Proofs/TeqComplete.v): an abstract-term
+    simulation.  Invariant: every compared pair of ids [(x, y)] is the pair of instances
+    [cs args1 c], [cs args2 c] of ONE open source term [c]; both GenericsLists are the frame of the
+    instantiation's own parameters - the same positions and names bound to the respective
+    arguments ([Rp]) - below any number of empty frames ([GL]); the visited sets are the instances
+    of one list of open terms above the two instantiations ([Inv]); "seen on the left iff seen
+    on the right" holds because the instances under one coincidence-free argument list determine
+    the instances under the other ([inj_n]).
+
+    MISSING for the full statement - and FALSE as it stands, see [C04_instantiations_stay_cf_refuted]:
+    parameters under applications of generic definitions / prelude generics (nested parameter
+    frames), Box / VecDeque, compact-attribute fields, fields without recorded type names. *)
+From V Require Import Model.Program Model.ProgramTeq Model.ProgramExamples Model.Settings Model.Generate Model.Shape
+  Proofs.TeqComplete Proofs.ProgramExamples.
+
+Theorem C04_instantiations_stay_partial :
+  forall defs L r,
+  RegistryOf defs L r ->
+  forall d sd, nth_error defs d = Some sd -> teq_program_okb sd = true ->
+  forall args1 args2,
+  instantiation_cf defs sd args1 = true -> map canon args1 = args1 ->
+  instantiation_cf defs sd args2 = true -> map canon args2 = args2 ->
+  forall id1 id2, L id1 = Some (SApp d args1) -> L id2 = Some (SApp d args2) ->
+  types_equal_res r id1 id2 = Ok true.
+Proof. exact teq_instantiations_labels. Qed.
+Print Assumptions C04_instantiations_stay_partial.
+
+(** non-vacuity: [a::Pt<T> { x: T, ys: Vec<T>, p: (T, u8), o: Option<u32> }] at [u16] and [bool] *)
+Theorem C04_instantiations_stay_example :
+  RegistryOf ex7_defs (label_at ex7_labels) ex7_reg /\
+  nth_error ex7_defs 0 = Some ex7_sd /\ teq_program_okb ex7_sd = true /\
+  instantiation_cf ex7_defs ex7_sd [SPrimT PU16] = true /\ instantiation_cf ex7_defs ex7_sd [SPrimT PBool] = true /\
+  label_at ex7_labels 0 = Some (SApp 0 [SPrimT PU16]) /\ label_at ex7_labels 7 = Some (SApp 0 [SPrimT PBool]) /\
+  types_equal_res ex7_reg 0 7 = Ok true.
+Proof. exact (conj ex7_RegistryOf ex7_hypotheses). Qed.
+Print Assumptions C04_instantiations_stay_example.
+
+(** REFUTATION of the statement without the fragment (on the faithful model; to be replayed on
+    the implementation): [a::D<T, U> { a: Wrap<T>, b: U }], [a::Wrap<X> { v: Vec<X> }] at
+    [(u8, Vec<u8>)] and [(u16, Vec<u16>)].  The registry is program-derived, ALL FOUR interned
+    instantiations are coincidence-free in the sense of [instantiation_cf] (the three conditions
+    of C05's quantifier read on the source field types of one definition), the registry is
+    skeleton-consistent - and [types_equal] judges the two instantiations of [D] different, so
+    generation fails with DuplicateTypePath("a::D") and de-duplication would split them.  Inside
+    [Wrap<u8>] the field type [Vec<u8>] is the id bound to the OUTER parameter [U] (on both
+    sides), so the field is decided by its recorded name ["Vec<X>"], which is no parameter name.
+    The coincidence condition would have to look through nested definitions ("deep" components). *)
+Theorem C04_instantiations_stay_cf_refuted :
+  RegistryOf f19_defs (label_at f19_labels) f19_reg /\
+  instantiation_cf f19_defs (nth 0 f19_defs pe_default) [SPrimT PU8; SVec (SPrimT PU8)] = true /\
+  instantiation_cf f19_defs (nth 0 f19_defs pe_default) [SPrimT PU16; SVec (SPrimT PU16)] = true /\
+  instantiation_cf f19_defs (nth 1 f19_defs pe_default) [SPrimT PU8] = true /\
+  instantiation_cf f19_defs (nth 1 f19_defs pe_default) [SPrimT PU16] = true /\
+  skeleton_consistentb f19_reg f19_s = true /\
+  types_equal_res f19_reg 0 4 = Ok false /\
+  generate f19_reg f19_s (types_equal f19_reg) = Err (EDuplicatePath "a::D").
+Proof. exact (conj f19_RegistryOf f19_facts). Qed.
+Print Assumptions C04_instantiations_stay_cf_refuted.
